@@ -24,19 +24,29 @@ Wraps == {"program", "fdecl", "fexpr", "arrow_block", "arrow_expr", "getter", "s
 WrapTemplates == {"w_" \o p \o "_" \o w : p \in Payloads, w \in Wraps}
 \* jumps that are patched with an explicit target (continue targets, switch dispatch): only they cross the 64 KB boundary
 ExplicitTemplates == {"dowhile_continue", "for_continue", "switch_nobreak", "switch_default_first", "while_continue_labelled"}
-Templates == OperandTemplates \cup SizeTemplates \cup WrapTemplates \cup ExplicitTemplates
+\* large literals / argument lists whose elements are COMPOUND and differ by position: element i has kind (i + k) mod 8 of
+\* number, string, nested array, object, call, function expression, conditional, indexed nested literal; with k = 0..7 every
+\* kind lands on every position class (in particular next to every 8-bit boundary). The program itself checks every element
+\* against its index and returns the number of correct ones: n.
+MixForms == {"array", "object", "args", "newargs"}
+MixWheres == IF Quick THEN {"program"} ELSE {"program", "fdecl", "callback"}
+Digit == <<"0", "1", "2", "3", "4", "5", "6", "7">>
+MixTemplates == {"mx_" \o f \o "_" \o Digit[k + 1] \o "_" \o w : f \in MixForms, k \in 0..7, w \in MixWheres}
+MixNs == {1, 9, 200, 254, 255, 256, 257, 300, 511, 512, 1000} \cup (IF Quick THEN {} ELSE {253, 258, 509, 510, 513, 765, 766, 767, 2000})
+Templates == OperandTemplates \cup SizeTemplates \cup WrapTemplates \cup ExplicitTemplates \cup MixTemplates
 
 OperandNs == {1, 2, 127, 128, 200} \cup (250..260) \cup (IF Quick THEN {300, 1000} ELSE {300, 511, 512, 513, 1000, 5000, 65537})
 SizeNs == {1, 2, 50} \cup (IF Quick THEN {1000, 6000, 8192, 11000}
                            ELSE {1000, 3000, 5000, 5460, 5461, 5462, 6000, 6553, 6554, 7000, 7281, 7282, 8000, 8190, 8191, 8192, 8193, 9000, 9362, 9363, 10000, 10922, 10923, 11000, 13107, 13108, 16384, 20000, 33000, 100000})
 WrapNs == {1, 200, 255, 256, 257} \cup (IF Quick THEN {} ELSE {254, 258, 300, 600, 1000})
-Ns(t) == IF t \in OperandTemplates THEN OperandNs ELSE IF t \in WrapTemplates THEN WrapNs ELSE SizeNs
+Ns(t) == IF t \in OperandTemplates THEN OperandNs ELSE IF t \in WrapTemplates THEN WrapNs ELSE IF t \in MixTemplates THEN MixNs ELSE SizeNs
 PayloadOf(t) == CHOOSE p \in Payloads : \E w \in Wraps : t = "w_" \o p \o "_" \o w
 
 \* closed form of the template's result (small integers; see checks/c14_driver.py for the program text)
 M7(x) == x % 7
 Closed(t, n) ==
   CASE t \in WrapTemplates -> (IF PayloadOf(t) = "consts" THEN VStr(U("c") \o IntText(n - 1)) ELSE VInt(n))
+    [] t \in MixTemplates -> VInt(n)
     [] t = "dowhile_continue" -> VInt(n)
     [] t = "for_continue" -> VInt(n)
     [] t = "switch_nobreak" -> VInt(n + 107)
